@@ -9,7 +9,11 @@ Space I, bounded-exhaustive, four parts (fmt of a failure names the part):
                  column ranges over  header vocabulary {token, _type, _bytes, _bytesio, a registered class name, "value",
                  a number, empty} x body vocabulary {token, class name, valid base64, "_type", "", every typed cell kind
                  (int float bool date datetime time duration error formula empty)}  (thorough: also both columns over the
-                 marker pairs, and 3-row sheets). Results of supported mail attachments count as results too.
+                 marker pairs, and 3-row sheets); plus typed cell x position (c05_corpus.typed_position_grids): each of the 9
+                 typed cell kinds at EVERY (row, column) of a sheet of plain tokens, shapes {1x1, 1x2, 2x1, 2x2, 3x1} = 12
+                 positions (first = label row, inner, last row; only / first / last column), x 3 formats = 324 sheets
+                 (thorough: also 1x3 and 3x3 = 24 positions, and every ordered pair of typed kinds at two positions of the
+                 2x2 sheet = 486 per format). Results of supported mail attachments count as results too.
                  plus the decorated texts (c05_corpus.edge_cases): a text  pre + tok [+ mid + tok'] + suf  whose decorations are
                  sequences over DECOR = {sp nl cr tab bom nbsp zwsp nul} - the characters that normalising constructors
                  (strip & co.) act on - placed before / after / inside / mirrored around the text, as the raw bytes of a plain
@@ -1018,7 +1022,8 @@ def run(ctx):
             pick.append(s)
     cov = {"evaluations": ev, "distinct_nontrivial": len(outcomes), "exhaustive": True,
            "rule": "(a) every accepted fixture and one rich generated document per format x {json-first, read-first}, plus the full "
-                   "header-vocabulary x body-vocabulary product of 2-column xlsx/xls/ods sheets, plus every decorated text (all sequences "
+                   "header-vocabulary x body-vocabulary product of 2-column xlsx/xls/ods sheets and every typed cell kind at every position of "
+                   "the small sheet shapes (bounds.typed_position_*), plus every decorated text (all sequences "
                    "over the 8-symbol alphabet DECOR up to the stated length, before / after / inside / around the text) as plain file and "
                    "as mail body, plus every (header, position, wire spelling) and (header, absent | twice) of a raw one-part eml / mbox message "
                    "(thorough: also CRLF, and pairs of headers); (b) for every instantiable registered "
@@ -1031,6 +1036,9 @@ def run(ctx):
            "samples": [{"fmt": s["fmt"], "case": _clip(s["case"]), "outcome": s["outcome"]} for s in pick[:6]],
            "bounds": {"tier": ctx.tier, "instance_deviations": 1 if ctx.quick else 2, "fixtures": len(fixture_files()),
                       "sheet_cases": len(G.sheet_cases(ctx.tier, seed)), "cli_cases": len(cli),
+                      "typed_position_shapes": [list(x) for x in (G.SHEET_SHAPES_QUICK if ctx.quick else G.SHEET_SHAPES_THOROUGH)],
+                      "typed_position_kinds": [c[0] for c in G.TYPED_CELLS if c is not None],
+                      "typed_position_pairs_2x2": not ctx.quick,
                       "decor_alphabet": [n for n, _ in I.DECOR], "decor_len_instance": I.DECOR_BOUNDS[decor_level(ctx.tier)],
                       "decor_strings_per_str_field": len(I.decor_sequences(decor_level(ctx.tier))),
                       "decor_deep_classes": ([] if ctx.quick else sorted(n for n, c in reg.items() if I.instantiable(c) and I.has_ctor_code(c))),
